@@ -127,13 +127,20 @@ PeriodicData(n) == {Unit(n, j) : j \in 2..(n - 1)} \cup {[i \in 1..n |-> IF i = 
                    \cup {[Mixed(n) EXCEPT ![n] = Mixed(n)[1]]}
 DataFor(n, bc) == IF bc.per THEN PeriodicData(n) ELSE {Unit(n, j) : j \in 1..n} \cup {Mixed(n)}
 
-VARIABLES n, hs, bc, y
-vars == <<n, hs, bc, y>>
-Init == /\ n \in 3..MaxN
-        /\ hs \in [1..(n - 1) -> Spacings]
-        /\ bc \in Bcs
-        /\ y \in DataFor(n, bc)
-Next == UNCHANGED vars
+\* the configuration is chosen in two steps so that TLC's workers evaluate the (expensive) invariants in parallel
+VARIABLES stage, n, hs, bc, y
+vars == <<stage, n, hs, bc, y>>
+NoBc == [per |-> FALSE, l |-> [k |-> "NotAKnot", v |-> Q0], r |-> [k |-> "NotAKnot", v |-> Q0]]
+Init == stage = 0 /\ n = 3 /\ hs = <<1, 1>> /\ bc = NoBc /\ y = <<Q0, Q0, Q0>>
+PickAxis == /\ stage = 0 /\ stage' = 1
+            /\ n' \in 3..MaxN
+            /\ hs' \in [1..(n' - 1) -> Spacings]
+            /\ UNCHANGED <<bc, y>>
+PickData == /\ stage = 1 /\ stage' = 2
+            /\ bc' \in Bcs
+            /\ y' \in DataFor(n, bc')
+            /\ UNCHANGED <<n, hs>>
+Next == PickAxis \/ PickData
 Spec == Init /\ [][Next]_vars
 
 X == AxisFrom(hs)
@@ -141,10 +148,10 @@ K == SolveForK(X, y, bc)
 Ref == SplineOf(X, y, bc)         \* certified inside SplineOf (C02 + C03 as exact equalities)
 
 \* the transcription refines the declarative spline: equal knot slopes ...
-SlopesAgree == \A i \in 1..n : K[i] = Ref.k[i]
+SlopesAgree == stage = 2 => \A i \in 1..n : K[i] = Ref.k[i]
 \* ... and equal values at the knots, at 1/3 and 1/2 of every interval and one interval-length outside each end (C06)
 ValuesAgree ==
-    \A i \in 1..(n - 1) :
+    stage = 2 => \A i \in 1..(n - 1) :
         LET h == QSub(X[i + 1], X[i])
             pts == {X[i], X[i + 1], QAdd(X[i], QDiv(h, Q3)), QAdd(X[i], QDiv(h, Q2))}
                    \cup (IF i = 1 THEN {QSub(X[1], h)} ELSE {}) \cup (IF i = n - 1 THEN {QAdd(X[n], h)} ELSE {})
